@@ -1,14 +1,97 @@
 /-
-  Driver.C20 — line protocol front end for property C20 (stub: not built yet).
+  Driver.C20 — the auto-trait model as an executable: answers `τ : Send` / `τ : Sync` queries over
+  the generated struct table (lean/EasyMl/Generated/Structs.lean, regenerated from the checkout
+  under test before this executable is built).
+
+    @ send <type>      true | false | unknown
+    @ sync <type>      true | false | unknown
+    @ table            number of definitions and a digest of their names
+
+  <type> is an S-expression:  prim | fnPtr | (leaf s y) | (dyn s y) | (ref τ) | (mutRef τ) |
+  (slice τ) | (array τ) | (vec τ) | (option τ) | (box τ) | (range τ) | (phantom τ) | (refCell τ) |
+  (cell τ) | (rawPtr τ) | (rc τ) | (arc τ) | (mutex τ) | (tuple τ…) | (adt <qualified name> τ…)
+  with s, y ∈ {0, 1}.  Core Lean only.
 -/
 import Driver.Parse
+import EasyMl.Generated.Structs
 
 namespace Driver.C20
+open EasyMl.Auto EasyMl.Generated
 
 abbrev State := Unit
 
 def init : State := ()
 
-def step (s : State) (_toks : List String) : State × String := (s, "unimplemented")
+/-- split into `(`, `)` and atoms -/
+def tokenize (s : String) : List String :=
+  let spaced := (s.replace "(" " ( ").replace ")" " ) "
+  (spaced.splitOn " ").filter (· ≠ "")
+
+def flag (s : String) : Option Bool :=
+  if s = "1" then some true else if s = "0" then some false else none
+
+mutual
+  /-- parses one type; returns it and the remaining tokens -/
+  partial def parseTy (toks : List String) : Option (Ty × List String) :=
+    match toks with
+    | "prim" :: rest => some (.prim, rest)
+    | "fnPtr" :: rest => some (.fnPtr, rest)
+    | "unknown" :: rest => some (.unknown, rest)
+    | "(" :: "leaf" :: s :: y :: ")" :: rest =>
+      match flag s, flag y with
+      | some s, some y => some (.leaf s y, rest)
+      | _, _ => none
+    | "(" :: "dyn" :: s :: y :: ")" :: rest =>
+      match flag s, flag y with
+      | some s, some y => some (.dyn s y, rest)
+      | _, _ => none
+    | "(" :: "tuple" :: rest =>
+      (parseTys rest).map fun (ts, rest) => (.tuple ts, rest)
+    | "(" :: "adt" :: name :: rest =>
+      match structs.idOf name, parseTys rest with
+      | some id, some (ts, rest) => some (.adt id ts, rest)
+      | _, _ => none
+    | "(" :: ctor :: rest =>
+      match parseTy rest with
+      | some (t, ")" :: rest) =>
+        let mk : Option (Ty → Ty) := match ctor with
+          | "ref" => some .ref | "mutRef" => some .mutRef | "slice" => some .slice
+          | "array" => some .array | "vec" => some .vec | "option" => some .option
+          | "box" => some .box | "range" => some .range | "phantom" => some .phantom
+          | "refCell" => some .refCell | "cell" => some .cell | "rawPtr" => some .rawPtr
+          | "rc" => some .rc | "arc" => some .arc | "mutex" => some .mutex
+          | _ => none
+        mk.map fun f => (f t, rest)
+      | _ => none
+    | _ => none
+
+  /-- parses types up to the closing parenthesis (consumed) -/
+  partial def parseTys (toks : List String) : Option (List Ty × List String) :=
+    match toks with
+    | ")" :: rest => some ([], rest)
+    | _ =>
+      match parseTy toks with
+      | some (t, rest) => (parseTys rest).map fun (ts, rest) => (t :: ts, rest)
+      | none => none
+end
+
+def showVerdict : Option Bool → String
+  | some true => "true"
+  | some false => "false"
+  | none => "unknown"
+
+def step (s : State) (toks : List String) : State × String :=
+  match toks with
+  | "@" :: "send" :: rest =>
+    match parseTy (tokenize (" ".intercalate rest)) with
+    | some (t, []) => (s, showVerdict (isSend structs t))
+    | _ => (s, "bad-op")
+  | "@" :: "sync" :: rest =>
+    match parseTy (tokenize (" ".intercalate rest)) with
+    | some (t, []) => (s, showVerdict (isSync structs t))
+    | _ => (s, "bad-op")
+  | ["@", "table"] =>
+    (s, s!"definitions={structs.length} public={publicIds.length}")
+  | _ => (s, "bad-op")
 
 end Driver.C20
